@@ -309,7 +309,7 @@ func c04VM(w *fw.W, idx int, r *fw.Rand) {
 	default:
 		pool := fw.PickT(r, []int64{1, 2, 5, 14, 15, 16, 100})
 		points := int64(10)
-		add := fw.PickT(r, []int64{5, 8, 9, 10, 11})
+		add := fw.PickT(r, []int64{5, 8, 9, 10, 11, 12, 13, 15, 19, 20})
 		src = wrapNum(r, pool) + r.Pick([]string{"c", "C"}) + wrapNum(r, add)
 		if r.Bool() {
 			points = fw.PickT(r, []int64{6, 10, 12, 20})
